@@ -234,13 +234,17 @@ def renderElems : List ElemP → List Byte
 
 def elemVal (e : ElemP) : Elem F := .atom (.int (denoteInteger e.tok))
 
-theorem isInteger_head47 (t : List Byte) (h : isInteger t = true) : ∃ c u, t = c :: u ∧ isSpace c = false ∧ c ≠ 47 ∧ c ≠ 41 := by
+theorem isInteger_head47 (t : List Byte) (h : isInteger t = true) : ∃ c u, t = c :: u ∧ isSpace c = false ∧ c ≠ 47 ∧ c ≠ 41 ∧ c ≠ 92 := by
   obtain ⟨c, u, hcu, hcs, _, _, h41⟩ := isInteger_head t h
-  refine ⟨c, u, hcu, hcs, ?_, h41⟩
-  intro h47; subst h47
-  rw [hcu] at h
-  revert h
-  simp [isInteger, splitSign, allDigits, isDigit]
+  refine ⟨c, u, hcu, hcs, ?_, h41, ?_⟩
+  · intro h47; subst h47
+    rw [hcu] at h
+    revert h
+    simp [isInteger, splitSign, allDigits, isDigit]
+  · intro h92; subst h92
+    rw [hcu] at h
+    revert h
+    simp [isInteger, splitSign, allDigits, isDigit]
 
 /-- no "missing element" verdict where a token stands -/
 theorem elemMissing_tok (cfg : RWCfg) (l : List Byte) (c : Byte) (t : List Byte) (sk : Bool) (h44 : c ≠ 44) (h41 : c ≠ 41) :
@@ -263,7 +267,7 @@ theorem elemRead_int (env : Env F) (hcfg : env.lex.criSkipsComments = true) (hag
     elemRead env .integer (G l (e.before ++ (e.tok ++ (e.after ++ d :: rest))) sk) =
       .ok (.null, elemVal e, G (e.after.reverse ++ (e.tok.reverse ++ (e.before.reverse ++ l))) (d :: rest) sk) := by
   obtain ⟨htok, hlo, hhi, hb, ha⟩ := he
-  obtain ⟨c, u, hcu, hcs, h47, h41⟩ := isInteger_head47 e.tok htok
+  obtain ⟨c, u, hcu, hcs, h47, h41, h92⟩ := isInteger_head47 e.tok htok
   have h44 : c ≠ 44 := by
     obtain ⟨c', u', hcu', _, _, h44', _⟩ := isInteger_head e.tok htok
     rw [hcu] at hcu'
@@ -272,7 +276,7 @@ theorem elemRead_int (env : Env F) (hcfg : env.lex.criSkipsComments = true) (hag
   unfold elemRead
   simp only [hagg, if_true, bind, Except.bind, pure, Except.pure]
   have e1 : e.before ++ (e.tok ++ (e.after ++ d :: rest)) = e.before ++ c :: (u ++ (e.after ++ d :: rest)) := by rw [hcu]; simp
-  rw [e1, readTokenSeparator_seps e.before hb l c _ sk hcs h47, elemMissing_tok env.cfg _ c _ sk h44 h41]
+  rw [e1, readTokenSeparator_seps e.before hb l c _ sk hcs h47 h92, elemMissing_tok env.cfg _ c _ sk h44 h41]
   simp only [Bool.false_eq_true, if_false]
   have e2 : c :: (u ++ (e.after ++ d :: rest)) = e.tok ++ (e.after ++ d :: rest) := by rw [hcu]; simp
   rw [e2, elemReadCore_integer]
@@ -369,7 +373,7 @@ theorem aggrRead_ints (env : Env F) (hcfg : env.lex.criSkipsComments = true) (ha
   | nil => exact absurd rfl hne
   | cons e fs =>
     obtain ⟨htok, hlo, hhi, hb, ha⟩ := hok e (by simp)
-    obtain ⟨c0, u0, hcu, hcs, h47, h41⟩ := isInteger_head47 e.tok htok
+    obtain ⟨c0, u0, hcu, hcs, h47, h41, h92⟩ := isInteger_head47 e.tok htok
     let e' : ElemP := { e with before := [] }
     have hok' : ∀ x ∈ e' :: fs, ElemOK x := by
       intro x hx
@@ -395,7 +399,7 @@ theorem aggrRead_ints (env : Env F) (hcfg : env.lex.criSkipsComments = true) (ha
     simp only [hagg, if_true]
     have e1 : renderElems (e :: fs) ++ rest = e.before ++ c0 :: u1 := by
       rw [renderElems_cons, List.append_assoc, h1]
-    rw [e1, readTokenSeparator_seps e.before hb (40 :: l) c0 u1 sk hcs h47]
+    rw [e1, readTokenSeparator_seps e.before hb (40 :: l) c0 u1 sk hcs h47 h92]
     rw [show (G (e.before.reverse ++ 40 :: l) (c0 :: u1) sk).peekC = (c0, G (e.before.reverse ++ 40 :: l) (c0 :: u1) sk)
       from peekC_good _ c0 u1 sk]
     have x3 : (c0 == 41) = false := by simpa using h41
@@ -808,7 +812,7 @@ structure Param (F : Type) where
     delimiter, without error, and rests at the delimiter -/
 def ParamOK (env : Env F) (strict : Bool) (p : Param F) : Prop :=
   p.a.redefining = false ∧
-  (∃ c u, p.tok = c :: u ∧ isSpace c = false ∧ c ≠ 47) ∧
+  (∃ c u, p.tok = c :: u ∧ isSpace c = false ∧ c ≠ 47 ∧ c ≠ 92) ∧
   Seps p.before ∧
   ∀ (l : List Byte) (sk : Bool) (d : Byte) (rest : List Byte), (d = 44 ∨ d = 41) →
     ∃ sk', attrSTEPread env strict p.a (G l (p.tok ++ (p.after ++ d :: rest)) sk) =
@@ -829,7 +833,7 @@ theorem readAttrs_params (env : Env F) (strict : Bool) (ps : List (Param F)) (hn
   | nil => exact absurd rfl hne
   | cons p qs ih =>
     intro l c sk rest
-    obtain ⟨hred, ⟨c0, u0, htok, hc0, h47⟩, hbef, hread⟩ := hok p (by simp)
+    obtain ⟨hred, ⟨c0, u0, htok, hc0, h47, h92⟩, hbef, hread⟩ := hok p (by simp)
     cases qs with
     | nil =>
       obtain ⟨sk', hr⟩ := hread (p.before.reverse ++ l) sk 41 rest (Or.inr rfl)
@@ -838,7 +842,7 @@ theorem readAttrs_params (env : Env F) (strict : Bool) (ps : List (Param F)) (hn
       unfold readAttrs
       have e1 : p.before ++ (p.tok ++ (p.after ++ [41])) ++ rest = p.before ++ c0 :: (u0 ++ (p.after ++ 41 :: rest)) := by
         rw [htok]; simp
-      rw [e1, readTokenSeparator_seps p.before hbef l c0 _ sk hc0 h47]
+      rw [e1, readTokenSeparator_seps p.before hbef l c0 _ sk hc0 h47 h92]
       have e2 : c0 :: (u0 ++ (p.after ++ 41 :: rest)) = p.tok ++ (p.after ++ 41 :: rest) := by rw [htok]; simp
       rw [e2]
       simp only [hred, Bool.false_eq_true, if_false, hr, bind, Except.bind, pure, Except.pure]
@@ -854,7 +858,7 @@ theorem readAttrs_params (env : Env F) (strict : Bool) (ps : List (Param F)) (hn
       have e1 : p.before ++ (p.tok ++ (p.after ++ 44 :: renderParams (q :: qs'))) ++ rest =
           p.before ++ c0 :: (u0 ++ (p.after ++ 44 :: (renderParams (q :: qs') ++ rest))) := by
         rw [htok]; simp
-      rw [e1, readTokenSeparator_seps p.before hbef l c0 _ sk hc0 h47]
+      rw [e1, readTokenSeparator_seps p.before hbef l c0 _ sk hc0 h47 h92]
       have e2 : c0 :: (u0 ++ (p.after ++ 44 :: (renderParams (q :: qs') ++ rest))) =
           p.tok ++ (p.after ++ 44 :: (renderParams (q :: qs') ++ rest)) := by rw [htok]; simp
       rw [e2]
@@ -880,12 +884,12 @@ theorem instSTEPread_params (env : Env F) (strict : Bool) (ps : List (Param F)) 
   cases ps with
   | nil => exact absurd rfl hne
   | cons p qs =>
-    obtain ⟨hred, ⟨c0, u0, htok, hc0, h47⟩, hbef, hread⟩ := hok p (by simp)
+    obtain ⟨hred, ⟨c0, u0, htok, hc0, h47, h92⟩, hbef, hread⟩ := hok p (by simp)
     let p' : Param F := { p with before := [] }
     have hok' : ∀ x ∈ p' :: qs, ParamOK env strict x := by
       intro x hx
       rcases List.mem_cons.mp hx with rfl | hx
-      · exact ⟨hred, ⟨c0, u0, htok, hc0, h47⟩, Seps.blanks [] (by simp), hread⟩
+      · exact ⟨hred, ⟨c0, u0, htok, hc0, h47, h92⟩, Seps.blanks [] (by simp), hread⟩
       · exact hok x (by simp [hx])
     obtain ⟨sk', hr⟩ := readAttrs_params env strict (p' :: qs) (by simp) hok' (p.before.reverse ++ 40 :: l) 40 sk rest
     refine ⟨sk', ?_⟩
@@ -896,15 +900,15 @@ theorem instSTEPread_params (env : Env F) (strict : Bool) (ps : List (Param F)) 
     rw [shiftInto_good 0 l 40 _ sk (by decide)]
     simp only [bne_self_eq_false, Bool.false_eq_true, if_false, List.map_cons, List.isEmpty_cons]
     -- the token separator after `(` takes the layout in front of the first parameter
-    have hhead : ∃ c1 u1, renderParams (p' :: qs) ++ rest = c1 :: u1 ∧ isSpace c1 = false ∧ c1 ≠ 47 := by
+    have hhead : ∃ c1 u1, renderParams (p' :: qs) ++ rest = c1 :: u1 ∧ isSpace c1 = false ∧ c1 ≠ 47 ∧ c1 ≠ 92 := by
       cases qs with
-      | nil => exact ⟨c0, u0 ++ (p.after ++ 41 :: rest), by simp [renderParams, p', htok], hc0, h47⟩
+      | nil => exact ⟨c0, u0 ++ (p.after ++ 41 :: rest), by simp [renderParams, p', htok], hc0, h47, h92⟩
       | cons q qs' =>
-        exact ⟨c0, u0 ++ (p.after ++ 44 :: (renderParams (q :: qs') ++ rest)), by simp [renderParams, p', htok], hc0, h47⟩
-    obtain ⟨c1, u1, h1, hc1, h471⟩ := hhead
+        exact ⟨c0, u0 ++ (p.after ++ 44 :: (renderParams (q :: qs') ++ rest)), by simp [renderParams, p', htok], hc0, h47, h92⟩
+    obtain ⟨c1, u1, h1, hc1, h471, h921⟩ := hhead
     have e1 : renderParams (p :: qs) ++ rest = p.before ++ c1 :: u1 := by
       rw [renderParams_cons, List.append_assoc, h1]
-    rw [e1, readTokenSeparator_seps p.before hbef (40 :: l) c1 u1 sk hc1 h471, ← h1]
+    rw [e1, readTokenSeparator_seps p.before hbef (40 :: l) c1 u1 sk hc1 h471 h921, ← h1]
     have hmap : (p' :: qs).map (·.a) = p.a :: qs.map (·.a) := rfl
     have hmapv : (p' :: qs).map (·.v) = p.v :: qs.map (·.v) := rfl
     rw [hmap, hmapv] at hr
@@ -918,14 +922,14 @@ theorem ParamOK.dollar (env : Env F) (strict : Bool) (hcfg : env.lex.criSkipsCom
     (hopt : a.optional = true) (hder : a.derived = false) (hred : a.redefining = false)
     (before after : List Byte) (hb : Seps before) (ha : Seps after) :
     ParamOK env strict { a := a, v := nullOf a, tok := [36], before := before, after := after } :=
-  ⟨hred, ⟨36, [], rfl, by decide, by decide⟩, hb, fun l sk d rest hd =>
+  ⟨hred, ⟨36, [], rfl, by decide, by decide, by decide⟩, hb, fun l sk d rest hd =>
     ⟨sk, by simpa using attr_dollar env strict a hopt hder hcfg l sk after ha d rest hd⟩⟩
 
 theorem ParamOK.star (env : Env F) (strict : Bool) (hcfg : env.lex.criSkipsComments = true) (a : AttrD)
     (hder : a.derived = true) (hred : a.redefining = false)
     (before after : List Byte) (hb : Seps before) (ha : Seps after) :
     ParamOK env strict { a := a, v := .derived, tok := [42], before := before, after := after } :=
-  ⟨hred, ⟨42, [], rfl, by decide, by decide⟩, hb, fun l sk d rest hd =>
+  ⟨hred, ⟨42, [], rfl, by decide, by decide, by decide⟩, hb, fun l sk d rest hd =>
     ⟨sk, by simpa using attr_star env strict a hder hcfg l sk after ha d rest hd⟩⟩
 
 theorem ParamOK.integer (env : Env F) (strict : Bool) (hcfg : env.lex.criSkipsComments = true) (a : AttrD)
@@ -933,14 +937,8 @@ theorem ParamOK.integer (env : Env F) (strict : Bool) (hcfg : env.lex.criSkipsCo
     (tok : List Byte) (htok : isInteger tok = true) (hlo : longMin ≤ denoteInteger tok) (hhi : denoteInteger tok < longMax)
     (before after : List Byte) (hb : Seps before) (ha : Seps after) :
     ParamOK env strict { a := a, v := .one (.atom (.int (denoteInteger tok))), tok := tok, before := before, after := after } := by
-  obtain ⟨c, u, hcu, hcs, h36, _, _⟩ := isInteger_head tok htok
-  have h47 : c ≠ 47 := by
-    intro h; subst h
-    -- `/` is neither a sign nor a digit
-    rw [hcu] at htok
-    revert htok
-    simp [isInteger, splitSign, allDigits, isDigit]
-  exact ⟨hred, ⟨c, u, hcu, hcs, h47⟩, hb, fun l sk d rest hd =>
+  obtain ⟨c, u, hcu, hcs, h47, _, h92⟩ := isInteger_head47 tok htok
+  exact ⟨hred, ⟨c, u, hcu, hcs, h47, h92⟩, hb, fun l sk d rest hd =>
     ⟨sk, attr_integer env strict a hty hder hcfg tok htok hlo hhi l sk after ha d rest hd⟩⟩
 
 theorem ParamOK.ref (env : Env F) (strict : Bool) (hcfg : env.lex.criSkipsComments = true) (a : AttrD) (tg : String)
@@ -950,7 +948,7 @@ theorem ParamOK.ref (env : Env F) (strict : Bool) (hcfg : env.lex.criSkipsCommen
     (before after : List Byte) (hb : Seps before) (ha : Seps after) :
     ParamOK env strict { a := a, v := .one (.atom (.ref ((digitsVal ds 0 : Nat) : Int))), tok := 35 :: ds,
                          before := before, after := after } :=
-  ⟨hred, ⟨35, ds, rfl, by decide, by decide⟩, hb, fun l sk d rest hd =>
+  ⟨hred, ⟨35, ds, rfl, by decide, by decide, by decide⟩, hb, fun l sk d rest hd =>
     ⟨sk, by
       have := attr_ref env strict a tg hty hder hcfg ds hne hds hhi hfound l sk after ha d rest hd
       simpa using this⟩⟩
@@ -961,7 +959,7 @@ theorem ParamOK.aggrInt (env : Env F) (strict : Bool) (hcfg : env.lex.criSkipsCo
     (es : List ElemP) (inner : List Byte) (hok : ∀ e ∈ es, ElemOK e) (hin : Seps inner)
     (before after : List Byte) (hb : Seps before) (ha : Seps after) :
     ParamOK env strict { a := a, v := .aggr (es.map elemVal), tok := aggrText es inner, before := before, after := after } :=
-  ⟨hred, ⟨40, (aggrText es inner).tail, by cases es <;> rfl, by decide, by decide⟩, hb, fun l sk d rest hd =>
+  ⟨hred, ⟨40, (aggrText es inner).tail, by cases es <;> rfl, by decide, by decide, by decide⟩, hb, fun l sk d rest hd =>
     ⟨sk, attr_aggr_int env strict a hty hder hcfg hagg es inner hok hin l sk after ha d rest hd⟩⟩
 
 theorem ParamOK.string (env : Env F) (strict : Bool) (hcfg : env.lex.criSkipsComments = true) (a : AttrD)
@@ -969,7 +967,7 @@ theorem ParamOK.string (env : Env F) (strict : Bool) (hcfg : env.lex.criSkipsCom
     (b : List Byte) (hb : StringBody b) (before after : List Byte) (hbf : Seps before) (ha : Seps after) :
     ParamOK env strict { a := a, v := .one (.atom (.str (39 :: (b ++ [39])))), tok := 39 :: (b ++ [39]),
                          before := before, after := after } :=
-  ⟨hred, ⟨39, b ++ [39], rfl, by decide, by decide⟩, hbf, fun l sk d rest hd =>
+  ⟨hred, ⟨39, b ++ [39], rfl, by decide, by decide, by decide⟩, hbf, fun l sk d rest hd =>
     ⟨false, attr_string env strict a hty hder hcfg b hb l sk after ha d rest hd⟩⟩
 
 theorem ParamOK.enum (env : Env F) (strict : Bool) (hcfg : env.lex.criSkipsComments = true) (a : AttrD) (ty : ElemTy)
@@ -978,7 +976,7 @@ theorem ParamOK.enum (env : Env F) (strict : Bool) (hcfg : env.lex.criSkipsComme
     (hfind : findName (enumKindOf ty).table (name.map toUpper) = some i) (hset : (enumKindOf ty).isUnsetIdx i = false)
     (before after : List Byte) (hbf : Seps before) (ha : Seps after) :
     ParamOK env strict { a := a, v := .one (.atom (.enum i)), tok := 46 :: (name ++ [46]), before := before, after := after } :=
-  ⟨hred, ⟨46, name ++ [46], rfl, by decide, by decide⟩, hbf, fun l sk d rest hd =>
+  ⟨hred, ⟨46, name ++ [46], rfl, by decide, by decide, by decide⟩, hbf, fun l sk d rest hd =>
     ⟨sk, attr_enum env strict a ty hty het hder hcfg name i hne hname hfind hset l sk after ha d rest hd⟩⟩
 
 theorem ParamOK.binary (env : Env F) (strict : Bool) (hcfg : env.lex.criSkipsComments = true) (a : AttrD)
@@ -986,10 +984,10 @@ theorem ParamOK.binary (env : Env F) (strict : Bool) (hcfg : env.lex.criSkipsCom
     (hex : List Byte) (hne : hex ≠ []) (hhex : hex.all isXDigit = true)
     (before after : List Byte) (hbf : Seps before) (ha : Seps after) :
     ParamOK env strict { a := a, v := .one (.atom (.bin hex)), tok := 34 :: (hex ++ [34]), before := before, after := after } :=
-  ⟨hred, ⟨34, hex ++ [34], rfl, by decide, by decide⟩, hbf, fun l sk d rest hd =>
+  ⟨hred, ⟨34, hex ++ [34], rfl, by decide, by decide, by decide⟩, hbf, fun l sk d rest hd =>
     ⟨sk, attr_binary env strict a hty hder hcfg hex hne hhex l sk after ha d rest hd⟩⟩
 
-theorem isReal_head (tok : List Byte) (h : isReal tok = true) : ∃ c u, tok = c :: u ∧ isSpace c = false ∧ c ≠ 47 := by
+theorem isReal_head (tok : List Byte) (h : isReal tok = true) : ∃ c u, tok = c :: u ∧ isSpace c = false ∧ c ≠ 47 ∧ c ≠ 92 := by
   obtain ⟨sg, ip, fp, ex, htx, hsg, hip1, hip, _, _⟩ := isReal_shape tok h
   obtain ⟨i0, iu, rfl⟩ : ∃ i0 iu, ip = i0 :: iu := by
     cases ip with
@@ -997,10 +995,10 @@ theorem isReal_head (tok : List Byte) (h : isReal tok = true) : ∃ c u, tok = c
     | cons i0 iu => exact ⟨i0, iu, rfl⟩
   have hi0 : isDigit i0 = true := by simp at hip; exact hip.1
   rcases hsg with rfl | rfl | rfl
-  · refine ⟨i0, iu ++ 46 :: (fp ++ exText 69 ex), by rw [htx]; simp [realText], digit_not_space hi0, ?_⟩
-    simp [isDigit] at hi0; bomega
-  · exact ⟨43, i0 :: (iu ++ 46 :: (fp ++ exText 69 ex)), by rw [htx]; simp [realText], by decide, by decide⟩
-  · exact ⟨45, i0 :: (iu ++ 46 :: (fp ++ exText 69 ex)), by rw [htx]; simp [realText], by decide, by decide⟩
+  · refine ⟨i0, iu ++ 46 :: (fp ++ exText 69 ex), by rw [htx]; simp [realText], digit_not_space hi0, ?_, ?_⟩ <;>
+      (simp [isDigit] at hi0; bomega)
+  · exact ⟨43, i0 :: (iu ++ 46 :: (fp ++ exText 69 ex)), by rw [htx]; simp [realText], by decide, by decide, by decide⟩
+  · exact ⟨45, i0 :: (iu ++ 46 :: (fp ++ exText 69 ex)), by rw [htx]; simp [realText], by decide, by decide, by decide⟩
 
 theorem ParamOK.real (env : Env F) (strict : Bool) (hcfg : env.lex.criSkipsComments = true) (a : AttrD)
     (hty : a.ty = .one .real) (hder : a.derived = false) (hred : a.redefining = false)
@@ -1009,8 +1007,8 @@ theorem ParamOK.real (env : Env F) (strict : Bool) (hcfg : env.lex.criSkipsComme
     (hbuf : env.lex.realBuf = 0 ∨ tok.length < env.lex.realBuf)
     (before after : List Byte) (hbf : Seps before) (ha : Seps after) :
     ParamOK env strict { a := a, v := .one (.atom (.real v)), tok := tok, before := before, after := after } := by
-  obtain ⟨c, u, hcu, hcs, h47⟩ := isReal_head tok htok
-  exact ⟨hred, ⟨c, u, hcu, hcs, h47⟩, hbf, fun l sk d rest hd =>
+  obtain ⟨c, u, hcu, hcs, h47, h92⟩ := isReal_head tok htok
+  exact ⟨hred, ⟨c, u, hcu, hcs, h47, h92⟩, hbf, fun l sk d rest hd =>
     ⟨sk, attr_real env strict a hty hder hcfg tok dec v htok hden hv hnn hbuf l sk after ha d rest hd⟩⟩
 
 end StepModel.P21.RLemmas
